@@ -547,6 +547,8 @@ class Engine:
             return mk_enum(ty, o['variant'], o.get('vidx', 0), tuple(self.eval_const(st, x) for x in o.get('fields', [])))
         if 'str' in o:
             return C(ty, o['str'], o.get('named'))
+        if 'refto' in o:
+            return mk_ref(('S', intern(self.eval_const(st, o['refto']))), ())
         if 'elems' in o:
             items = tuple(self.eval_const(st, x) for x in o['elems'])
             return ('tuple', items) if ty.startswith('(') else ('array', items)
